@@ -201,6 +201,13 @@ read_tag_len!(c20_read_character_len7, 0x10, 7, 11);
 read_tag_len!(c20_read_integer_len5, 0x02, 5, 9);
 read_tag_len!(c20_read_integer_len9, 0x02, 9, 13);
 read_tag_len!(c20_read_smallint_len2, 0x01, 2, 6);
+read_tag_len!(c20_read_smallint_len3, 0x01, 3, 7);
+read_tag_len!(c20_read_bigint_len9, 0x03, 9, 13);
+read_tag_len!(c20_read_unsigned_len8, 0x04, 8, 12);
+read_tag_len!(c20_read_numeric_len9, 0x05, 9, 13);
+read_tag_len!(c20_read_float_len5, 0x06, 5, 9);
+read_tag_len!(c20_read_real_len4, 0x07, 4, 8);
+read_tag_len!(c20_read_null_len1, 0x00, 1, 5);
 read_tag_len!(c20_read_double_len9, 0x08, 9, 13);
 read_tag_len!(c20_read_boolean_len2, 0x20, 2, 6);
 read_tag_len!(c20_read_date_len7, 0x30, 7, 11);
